@@ -18,7 +18,7 @@ pub fn mon() -> Mon {
             "the instance-ID bits of byte 9 are not judged (C07 does not mention them; C12 does)",
             "for a non-Success completion code only bytes 9-11 are constrained",
         ],
-        children: no_children,
+        children: rel_child_quarter,
     }
 }
 
